@@ -152,15 +152,36 @@ def account_writers(P, R):
         for s in calls:
             f = s.fn
 
+            tnames = {c['v']: c['name'] for c in P.enums.get('iauth_xquery_type', [])}
+
+            def is_type(x, f=f):
+                # the service's protocol, or a local / folded parameter that holds a copy of it
+                while isinstance(x, dict) and x.get('k') == 'cast':
+                    x = x.get('e')
+                if is_field(x, 'type'):
+                    return True
+                if is_var(x) and x.get('sc') == 'local':
+                    ds = f.local_defs(x['name'])
+                    vals = [(d.ev.get('rhs') if d.ev['k'] == 'store' else d.ev.get('init')) for d in ds]
+                    return bool(vals) and all(isinstance(v, dict) and is_field(v, 'type') for v in vals)
+                return False
+
             def on_edge(st, e):
+                if e.label in ('case', 'default') and e.cond is not None and is_type(e.cond) and tnames:
+                    if e.label == 'case':
+                        names = {tnames.get(v) for v in (e.vs or [])}
+                    else:
+                        names = set(tnames.values()) - {tnames.get(v) for v in (e.notin or [])}
+                    names.discard(None)
+                    if names:
+                        return 'login' if names <= set(LOGIN_TYPES) else 'other'
+                    return st
                 r = rules.edge_rel(e)
-                if r and is_field(r[0], 'type') and r[2].get('k') == 'enum':
+                if r and is_type(r[0]) and isinstance(r[2], dict) and r[2].get('k') == 'enum':
                     if r[1] == '==':
                         return 'login' if r[2]['name'] in LOGIN_TYPES else 'other'
                     if r[1] == '!=' and r[2]['name'] == 'DRONECHECK':
                         return 'login'
-                if r and is_field(r[0], 'type') and e.label == 'case':
-                    return st
                 return st
 
             def on_event(st, t):
